@@ -1,5 +1,5 @@
 """C06 JSON reader accepts documented alternative forms and rejects invalid ones (engine A, schema-free part)."""
-from .. import codec
+from .. import codec, jsoncheck
 
 RULE = ("schema-free part on packages generated from the repository schemas: for canonical documents of FillRandom / hostile values: every number rewritten "
         "as a decimal string and insignificant whitespace inserted => accepted with identical TL1/TL2/JSON; duplicate key and unknown key in the top-level "
@@ -11,3 +11,18 @@ def run(ctx):
     codec.simple_check(ctx, "c06", RULE, [("types", "types", 150), ("documents", "documents", 4000), ("numbers-as-strings documents", "alt_numbers_as_strings", 2000),
                                           ("duplicate-key documents", "reject_duplicate-key", 1500), ("unknown-key documents", "reject_unknown-key", 1500)],
                        40, 300, count_keys=("documents",), random_quick=2, random_thorough=20)
+    thorough = ctx.tier == "thorough"
+    tot = {}
+    for config in ("tl2all", "tl1only"):
+        jsoncheck.run_schema(ctx, -1, config, 200 if thorough else 60, tot)  # fixed schema of mask / Maybe / enum / sized shapes
+    for i in range(16 if thorough else 2):
+        for config in (("tl2all", "tl1only") if (thorough or i == 0) else ("tl2all",)):
+            jsoncheck.run_schema(ctx, i, config, 12 if thorough else 6, tot)
+    ctx.cov.setdefault("counters", {}).update({"schema_aware_" + k: v for k, v in tot.items()})
+    ctx.cov["rule"] += (" Schema-aware part on random SchemaGen schemas (with and without TL2): canonical documents written by generated code are walked alongside the schema and rewritten "
+                        "into forms the mapping calls equal (omitted empty field given explicitly, local field mask left out when the present fields imply it - one mask or the "
+                        "whole chain, enum as {type}, empty union constructor as type string, Maybe without ok, empty Maybe as ok:false, nested numbers as strings) => accepted "
+                        "and equal TL1 bytes; and into invalid ones (unknown / duplicate key in nested objects, array longer/shorter than an explicit or constant size, Maybe with "
+                        "ok:false plus value in both key orders, without TL2: true field given as false with its mask bit set) => rejected.")
+    ctx.require("schema-aware documents", tot.get("documents", 0), 100)
+    ctx.require("schema-aware forms", tot.get("forms", 0), 600)
